@@ -309,6 +309,20 @@ def check(run):
         other = sorted(n for (ow, n) in reads if ow == "BlockExec" and n != "state_hash")
         narrowing = sorted(set(c.name.rsplit("::", 1)[-1] for fb in fam for c in fb.calls() if c.name.rsplit("::", 1)[-1] in ("filter", "take_if", "filter_map", "is_some_and", "is_none_or") and "option::Option" in c.name))
         o.check(not other and not narrowing, "begin_block|every-tracked-parent", "the parent's commitment is used whenever the parent is tracked (no condition on its record)", b.span, {"other_fields_read": other, "narrowing_calls": narrowing})
+        # D25: "unknown parents fall back to the parent block hash" - the parent whose commitment seeds the child is identified by its FULL id
+        # (slot and hash). A lookup key built from the parent's slot alone (InProgressBlock::Pending(p.0)) hands the child the state of ANOTHER
+        # block of that slot, unless the record found is compared with the parent's hash before it is used.
+        IPB = EX + "InProgressBlock"
+        by_slot = []
+        for fb in fam:
+            for (bb2, rv2, sp2, dst2) in fb.aggregates(IPB):
+                if rv2.get("variant") == "Pending":
+                    hash_cmp = any(c2.name.rsplit("::", 1)[-1] in ("eq", "ne") and any(K.mentions(fb3.operand_term(a2), lambda t: isinstance(t, tuple) and len(t) > 2 and t[0] == "field" and str(t[2]) in ("1", "block_hash"))
+                                                                                        for a2 in c2.args) for fb3 in fam for c2 in fb3.calls())
+                    if not hash_cmp:
+                        by_slot.append(sp2)
+        o.check(not by_slot, "begin_block|parent-lookup|by-slot-only", "the parent's record is looked up by the parent's full id (slot and hash), or the record found by slot is compared with the parent's hash", b.span,
+                {"sites": [x.split("/")[-1] for x in by_slot]})
         o.check(any(str(x).endswith("GENESIS_BLOCK_HASH") for x in consts), "begin_block|genesis-fallback", "falls back to the parent block hash, and to GENESIS_BLOCK_HASH without a parent", b.span)
     et = [prog.bodies[d] for d in ops if d.endswith("::execute_transactions")]
     for b in et:
@@ -320,8 +334,21 @@ def check(run):
                 if isinstance(t, tuple) and t and t[0] == "closure":
                     caps[t[1]] = dict(t[2])
 
+        # `exec.state_hash = txs.iter().fold(exec.state_hash.clone(), |acc, tx| H(acc || tx))`: inside the fold closure the running hash is the
+        # accumulator parameter, provided the fold starts from state_hash and its result is stored back into state_hash
+        acc_closures = set()
+        for fb0 in fam:
+            for c0 in fb0.calls():
+                if c0.name.rsplit("::", 1)[-1] == "fold" and len(c0.args) >= 3:
+                    ct = fb0.operand_term(c0.args[2])
+                    if isinstance(ct, tuple) and ct and ct[0] == "closure" and K.mentions_field(fb0.operand_term(c0.args[1]), "state_hash", "BlockExec") and \
+                            K.writes_of_field(fb0, "BlockExec", "state_hash"):
+                        acc_closures.add(ct[1])
+
         def is_state_hash(fb, t):
             if K.mentions_field(t, "state_hash", "BlockExec"):
+                return True
+            if fb.defpath in acc_closures and K.mentions(t, lambda x: isinstance(x, tuple) and len(x) > 1 and x[0] == "param" and x[1] == 2):
                 return True
             for x in mir.walk(t):
                 if isinstance(x, tuple) and x and x[0] == "upvar" and K.mentions_field(caps.get(fb.defpath, {}).get(x[1], ("none",)), "state_hash", "BlockExec"):
